@@ -29,22 +29,31 @@ pub enum Want {
 }
 
 /// Lexical resolution of a join argument against the root (mirror of the documented join rules).
+/// separator between the arguments of successive `join` calls inside one path expression
+pub const JOIN_SEP: char = '\u{1}';
+
 pub fn canon(arg: &str) -> Result<String, ()> {
     if arg.is_empty() {
         return Ok(String::new());
     }
-    if arg.len() > 1 && arg.ends_with('/') {
-        return Err(());
-    }
+    // '\u{1}' separates the arguments of successive joins: root.join(a)?.join(b)?...
     let mut comps: Vec<&str> = vec![];
-    for c in arg.split('/') {
-        if c.is_empty() || c == "." {
-            continue;
+    for seg in arg.split(JOIN_SEP) {
+        if seg.len() > 1 && seg.ends_with('/') {
+            return Err(());
         }
-        if c == ".." {
-            comps.pop();
-        } else {
-            comps.push(c);
+        if seg.starts_with('/') {
+            comps.clear();
+        }
+        for c in seg.split('/') {
+            if c.is_empty() || c == "." {
+                continue;
+            }
+            if c == ".." {
+                comps.pop();
+            } else {
+                comps.push(c);
+            }
         }
     }
     let mut s = String::new();
